@@ -142,11 +142,9 @@ def run_case(case):
                     # known findings in no-fill mode, excluded by construction (see known_findings.json)
                     # known finding: a read before the first write leaves the data element without its full
                     # length; unless a fill-mode write has allocated it since, no-fill writes may be refused
+                    # (repaired: ea7858c and the follow-up fix; these histories are generated again)
                     if (had_read_before_write[k] or reopened) and not full_alloc[k]:
-                        if not case.get("no_exclude"):
-                            excluded.append("C03-nofill-read-before-first-write")
-                            continue
-                        known_tag[k] = "C03-nofill-read-before-first-write"
+                        labels.add("nofill_first_write_late")
 
                     if m.unlimited and cls == "grow":
                         whole = all(s[i] == 0 and cn[i] == m.cur_shape()[i] and (not sd or sd[i] == 1)
